@@ -26,6 +26,12 @@ func (d *driver) runOtherFamily(fam, in string, sh *shards) bool {
 			d.runTranscriptProgram(sh.at(shard), k, line)
 		})
 		return true
+	case "conc":
+		getConf()
+		forEachLine(in, 1, func(shard, k int, line []byte) {
+			d.runConcProgram(sh.at(k), k, line)
+		})
+		return true
 	case "purity":
 		getConf()
 		forEachLine(in, 1, func(shard, k int, line []byte) {
